@@ -55,7 +55,7 @@ type idxPair[T any] struct {
 }
 
 func enumerateIdx[T comparable](op Op, o *Oracle, d *Dom[T], en *idxEnumA[T], seq []idxPair[T],
-	obs func() string, wrap func(result any, model []T) Subject, insertAll func(xs []T) []T, mutateRecv func()) bool {
+	obs func() string, wrap func(result any, model []T) Subject, insertAll func(xs []T) any, mutateRecv func()) bool {
 	p, k := op.A[0], op.A[1]
 	pred := idxPred(d, p, k)
 	if len(op.A) > 2 && op.A[2] == 1 {
@@ -143,8 +143,13 @@ func enumerateIdx[T comparable](op Op, o *Oracle, d *Dom[T], en *idxEnumA[T], se
 		// "built by inserting the ... elements in iteration order": differential against the library's
 		// own insertion into a fresh container of the same kind (exact elements, not only classes)
 		ref := insertAll(model)
-		if g, w := joinS(res.(containers.Container[T]).Values(), d.Str), joinS(ref, d.Str); g != w {
+		if g, w := joinS(res.(containers.Container[T]).Values(), d.Str), joinS(ref.(containers.Container[T]).Values(), d.Str); g != w {
 			o.Fail("C14", "result-vs-repeated-insertion", "%s(%d,%d) over %v returned %s, inserting the same elements one by one into a fresh container gives %s", op.N, p, k, mapS(seq, ps), g, w)
+			return true
+		}
+		// "a new container of the same kind": it also serialises like one
+		if g, w := jsonText(res.(jsonIO)), jsonText(ref.(jsonIO)); g != w {
+			o.Fail("C14", "result-tojson", "the result of %s(%d,%d) over %v serialises as %s, a fresh container holding the same elements as %s", op.N, p, k, mapS(seq, ps), g, w)
 			return true
 		}
 		// the result is a working container of the same discipline (and comparator): mutate it under the
@@ -184,12 +189,12 @@ func (s *listSubj[T]) Enumerate(op Op, o *Oracle) bool {
 			n.l, n.m = res.(lists.List[T]), model
 			return n
 		},
-		func(xs []T) []T {
+		func(xs []T) any {
 			f := makeList[T](s.cfg.Kind)
 			for _, x := range xs {
 				f.Add(x)
 			}
-			return f.Values()
+			return f
 		},
 		func() {
 			s.Step(Op{ID: op.ID, N: "Add", A: []int{derive(op.ID, 1, len(s.d.Tab))}}, o)
@@ -215,12 +220,12 @@ func (s *setSubj[T]) Enumerate(op Op, o *Oracle) bool {
 			n.modelAdd(model) // inserting in iteration order: sets deduplicate (and TreeSet re-sorts)
 			return n
 		},
-		func(xs []T) []T {
+		func(xs []T) any {
 			f := newSetSubj(s.cfg, s.d, false).s
 			for _, x := range xs {
 				f.Add(x)
 			}
-			return f.Values()
+			return f
 		},
 		func() {
 			s.Step(Op{ID: op.ID, N: "Add", A: []int{derive(op.ID, 1, len(s.d.Tab)), derive(op.ID, 2, len(s.d.Tab))}}, o)
@@ -343,6 +348,10 @@ func (s *kvSubj[K]) Enumerate(op Op, o *Oracle) bool {
 			o.Fail("C14", "result-vs-repeated-put", "%s(%d,%d) over %v returned %s, putting the same pairs one by one into a fresh map gives %s", op.N, p, k, mapS(seq, ps), g, w)
 			return true
 		}
+		if g, w := jsonText(res.(jsonIO)), jsonText(ref.(jsonIO)); g != w {
+			o.Fail("C14", "result-tojson", "the result of %s(%d,%d) over %v serialises as %s, a fresh map holding the same pairs as %s", op.N, p, k, mapS(seq, ps), g, w)
+			return true
+		}
 		so := subOracle(o, resultTags...)
 		c := &Client{Role: "churn"}
 		r := NewRng(uint64(op.ID)*7919 + 17)
@@ -377,6 +386,9 @@ func (w *enumWorld) Gen(seed uint64, tier string) *Plan {
 	cfg := genCfg(r, enumKinds, tier)
 	if cfg.Dom > 32 {
 		cfg.Dom = 32
+	}
+	if floatOK("C14", cfg.Kind) && r.P(1, 8) {
+		useFloat(r, &cfg) // both zeros (== but distinguishable), infinities, NaN keys for the tree kinds
 	}
 	p := &Plan{World: "enum", Cfg: cfg}
 	s := makeSubject(cfg, false)
